@@ -172,7 +172,7 @@ def type_class(t: str) -> str:
         return 'bool'
     if t.endswith('PyTreeKind'):
         return 'kind'
-    if 'basic_string' in t or t in ('std::string', 'string'):
+    if t.startswith('std::basic_string') or t.startswith('std::__cxx11::basic_string') or t in ('std::string', 'string'):
         return 'str'
     if t.endswith('PyTreeSpec::Node') or t == 'Node':
         return 'node'
@@ -190,7 +190,7 @@ def type_class(t: str) -> str:
         return 'specptr'
     if t.endswith('PyTreeSpec'):
         return 'spec'
-    if 'shared_ptr<const' in t or t.endswith('RegistrationPtr'):
+    if ('shared_ptr<' in t and 'Registration' in t) or t.endswith('RegistrationPtr'):
         return 'regptr'
     if re.match(r'std::optional<(pybind11|py)::function', t):
         return 'optfn'
@@ -263,6 +263,8 @@ class Engine:
         return r != z3.unsat
 
     def throw(self, st: State, cls: str, line=0, info=''):
+        if cls == 'rethrow' and st.ghost.get('caught'):
+            cls, info = st.ghost['caught'][1], st.ghost['caught'][2]
         self.exc.append((st, ('throw', cls, info, line)))
 
     # -- expression evaluation ------------------------------------------------------------------
@@ -359,6 +361,19 @@ class Engine:
         return outs
 
     def member(self, st: State, base, name: str, n=None):
+        from .absmap import MapIt, AbsMap
+        if isinstance(base, MapIt):
+            m = st.heap[base.oid]
+            if name == 'second':
+                self.oblige(st, 'II', f'{m.name}:iterator-deref-valid', m.contains(base.key), n.get('line') if n else 0)
+                return m.get(base.key)
+            if name == 'first':
+                return base.key[-1]
+        if isinstance(base, Ptr) and base.oid is not None and isinstance(st.heap.get(base.oid), dict):
+            # plain record object (e.g. the registry singleton): fields are heap pointers
+            rec = st.heap[base.oid]
+            if name in rec:
+                return rec[name]
         if isinstance(base, Ptr):
             if base.oid is None:
                 raise Unsupported('member of nullptr')
@@ -409,6 +424,8 @@ class Engine:
             st, base = self.ev1(n.c[0], st)
             if isinstance(base, Ptr) and isinstance(st.heap.get(base.oid), SpecObj):
                 return st, ('specfield', base.oid, n.name)
+            if is_z3(base) and base.sort() == Ref:
+                return st, ('regfield', base, n.name)
             if isinstance(base, ElemRef):
                 return st, ('field', ('elem', base.oid, base.idx), n.name)
             st, bp = self.place(n.c[0], st)
@@ -495,6 +512,13 @@ class Engine:
                 self.write_place(st, p[1], b.with_(f, v))
                 return
             raise Unsupported(f'write field of {b!r}')
+        if p[0] == 'regfield':
+            # field of a freshly made Registration: recorded as a fact about the (fresh) registration object
+            fn = {'type': M.reg_type, 'path_entry_type': M.reg_pet, 'kind': M.reg_kind,
+                  'flatten_func': z3.Function('reg_flatten_func', Ref, Ref),
+                  'unflatten_func': z3.Function('reg_unflatten_func', Ref, Ref)}[p[2]]
+            st.pc.append(fn(p[1]) == (as_int(val) if p[2] == 'kind' else refof(val)))
+            return
         if p[0] == 'specfield':
             obj = st.heap[p[1]]
             f = {'m_none_is_leaf': 'nil', 'm_namespace': 'ns'}.get(p[2])
@@ -549,6 +573,9 @@ class Engine:
         return outs
 
     def deref(self, st, v):
+        from .absmap import MapIt
+        if isinstance(v, MapIt):
+            return v
         if isinstance(v, Ptr):
             return v
         if isinstance(v, Iter):
@@ -650,6 +677,9 @@ class Engine:
         raise Unsupported(f'binop {op}')
 
     def equal(self, st, a, b):
+        from .absmap import MapIt, it_equal
+        if isinstance(a, MapIt) and isinstance(b, MapIt):
+            return it_equal(st, a, b)
         if isinstance(a, Ptr) and isinstance(b, Ptr):
             return z3.BoolVal(a.oid == b.oid)
         if isinstance(a, Ptr) and a.oid is None:
@@ -667,6 +697,11 @@ class Engine:
         if is_z3(a) and isinstance(b, (int, bool)):
             return a == b
         if isinstance(a, Opaque) or isinstance(b, Opaque):
+            hook = getattr(self.cur_contract, 'opaque_equal', None)
+            if hook:
+                r = hook(self, st, a, b)
+                if r is not None:
+                    return r
             if is_z3(a) and a.sort() == Str or is_z3(b) and b.sort() == Str:
                 # comparison of a string with a literal: uninterpreted
                 lit = b if isinstance(b, Opaque) else a
@@ -716,10 +751,15 @@ class Engine:
         for s, c in self.ev(n.c[0], st):
             c = as_bool(c)
             if self.pure(n.c[1]) and self.pure(n.c[2]):
-                (s1, a), = self.ev(n.c[1], s)
-                (s2, b), = self.ev(n.c[2], s1)
-                a, b = self.load(s2, a), self.load(s2, b)
-                outs.append((s2, self.ite(c, a, b)))
+                # both arms are effect-free: evaluate each under its guard (so that safety obligations of an arm
+                # carry the guard) and merge the values
+                st_t, st_f = s.clone(), s.clone()
+                self.assume(st_t, c)
+                self.assume(st_f, z3.Not(c))
+                (s1, a), = self.ev(n.c[1], st_t)
+                (s2, b), = self.ev(n.c[2], st_f)
+                a, b = self.load(s1, a), self.load(s2, b)
+                outs.append((s, self.ite(c, a, b)))
             else:
                 st_t, st_f = s, s.clone()
                 self.assume(st_t, c)
@@ -832,6 +872,8 @@ class Engine:
             self.throw(st, 'rethrow', n.get('line'))
             return []
         cls, msg = self.exception_class(n.c[0])
+        if 'error_already_set' in cls:
+            st.ghost['pyerr'] = z3.BoolVal(False)      # the pending Python error is transferred into the C++ exception
         if cls == 'optree::InternalError':
             self.oblige(st, 'I', f'unreachable:{msg}', z3.BoolVal(False), n.get('line'))
         # evaluate operands for their effects (PyRepr etc.) only coarsely: message building is dropped
@@ -850,6 +892,20 @@ class Engine:
             msg = 'Unreachable code.'
         return t, msg[:90]
 
+    def describe(self, n: N, limit=48) -> str:
+        """Compact, line-independent description of an expression (names in pre-order) used in obligation ids."""
+        parts = []
+        for d in self.walk(n):
+            if d.k in ('DeclRefExpr', 'MemberExpr', 'CXXDependentScopeMemberExpr', 'UnresolvedLookupExpr') and d.name:
+                if d.name.startswith('operator') or d.name in ('ptr',):
+                    continue
+                parts.append(d.name)
+            elif d.k == 'IntegerLiteral':
+                parts.append(str(d['v']))
+            elif d.k == 'CXXThisExpr':
+                pass
+        return '.'.join(parts)[:limit]
+
     def walk(self, n: N):
         yield n
         for c in n.c:
@@ -865,9 +921,9 @@ class Engine:
     # ghost effects ------------------------------------------------------------------------------
     def may_call_python(self, st: State, what: str, line=0):
         """A call into Python: class IV obligation L1 (no engine lock held) and havoc of mutable containers."""
-        if st.ghost['locks']:
-            self.oblige(st, 'IV', f'no-lock-held-across-python-call:{what}:{"+".join(st.ghost["locks"])}',
-                        z3.BoolVal(False), line)
+        # L1 (C17): no engine lock is held while Python code may run
+        self.oblige(st, 'IV', f'L1:no-lock-held-across-python-call:{what}', z3.BoolVal(not st.ghost['locks']), line,
+                    note=('held: ' + '+'.join(st.ghost['locks'])) if st.ghost['locks'] else '')
         st.ghost['epoch'] = st.ghost['epoch'] + 1
         st.ghost['trace'] = st.ghost['trace'] + ((what, line),)
         hook = getattr(self.cur_contract, 'on_python_call', None)
@@ -1505,10 +1561,12 @@ class Engine:
                 k += 1
 
     # function execution ------------------------------------------------------------------------------
-    def run(self, qname: str, contract) -> list[VC]:
+    def run(self, qname: str, contract, label: str = '') -> list[VC]:
         fn = self.prog.functions[qname]
+        self.cur_tu = fn.get('tu')
+        self.template_env = dict(getattr(contract, 'template_instance', {}) or {})
         self.index_loops(fn)
-        self.fn = qname
+        self.fn = qname + label
         self.cur_contract = contract
         self.loop_ordinal = 0
         self.exc = []
@@ -1547,7 +1605,7 @@ class Engine:
             else:
                 raise Unsupported(f'function ended with outcome {o}')
         # cover: the normal exit is reachable (guards against vacuous preconditions)
-        self.covers.append((qname, normal))
+        self.covers.append((qname + label, normal))
         return self.vcs
 
 
